@@ -37,17 +37,27 @@ Kind(k, i) ==
       [] k = "bad3"    -> [req |-> Raw("POST /badcl HTTP/1.1\r\nHost: example.com\r\nContent-Length: 5x\r\n\r\nhello"), beh |-> "ok"]
       \* body over the limit of 64 bytes configured for the case
       [] k = "big"     -> [req |-> Req("POST", "/big" \o ToDec(i), "cl", 100, << >>), beh |-> "ok"]
+      \* ... announced with Expect: 100-continue (the server may answer 100 before it looks at the length)
+      [] k = "bigx"    -> [req |-> [Req("POST", "/bigx" \o ToDec(i), "cl", 100, << >>) EXCEPT !.expect100 = TRUE], beh |-> "ok"]
+      \* more malformed requests: Content-Length that is not a number (characters next to the digits in ASCII), an
+      \* empty request-target, a blank between field name and colon (a malformed trailer line: H1LimitGen, buffered mode)
+      [] k = "bad4"    -> [req |-> Raw("POST /badcl2 HTTP/1.1\r\nHost: example.com\r\nContent-Length: :\r\n\r\nhello"), beh |-> "ok"]
+      [] k = "bad5"    -> [req |-> Raw("POST /badcl3 HTTP/1.1\r\nHost: example.com\r\nContent-Length: /\r\n\r\nhello"), beh |-> "ok"]
+      [] k = "bad7"    -> [req |-> Raw("GET  HTTP/1.1\r\nHost: example.com\r\n\r\n"), beh |-> "ok"]
+      [] k = "bad8"    -> [req |-> Raw("GET /ws HTTP/1.1\r\nHost: example.com\r\nX-A : v\r\n\r\n"), beh |-> "ok"]
 
 Good == {"get", "post", "chunked", "panic"}
 LastKinds == Good \cup {"bad1", "bad2", "bad3", "big", "hijack"}
 
 RECURSIVE SeqsOfLen(_, _)
 SeqsOfLen(S, n) == IF n = 0 THEN {<< >>} ELSE {Append(p, s) : p \in SeqsOfLen(S, n - 1), s \in S}
+MoreBad == {"bigx", "bad4", "bad5", "bad7", "bad8"}
 Histories == UNION {{Append(p, l) : p \in SeqsOfLen(Good, n - 1), l \in LastKinds} : n \in 1 .. MaxK}
+             \cup {<<b>> : b \in MoreBad} \cup {<<"post", b>> : b \in MoreBad} \cup {<<"chunked", b>> : b \in MoreBad}
 
 \* variants of a history h: end of connection / faults
 Variants(h) ==
-    LET n == Len(h) lastGood == h[n] \in Good lastBody == h[n] \in {"post", "chunked", "panic", "big"} IN
+    LET n == Len(h) lastGood == h[n] \in Good lastBody == h[n] \in {"post", "chunked", "panic", "big", "bigx"} IN
     {[close |-> FALSE, cut |-> 0, wfail |-> 0, stall |-> FALSE]}
     \cup (IF lastGood THEN {[close |-> FALSE, cut |-> 0, wfail |-> 0, stall |-> TRUE]} ELSE {})   \* the peer goes silent: idle time-out
     \cup (IF lastGood THEN {[close |-> TRUE, cut |-> 0, wfail |-> 0, stall |-> FALSE]} ELSE {})
